@@ -1,6 +1,7 @@
 package table
 
 import (
+	"math"
 	"math/rand"
 	"sync/atomic"
 	"time"
@@ -133,11 +134,24 @@ func (p *PitCsTree) Update() {
 
 func (p *PitCsTree) updatePitExpiry(pitEntry PitEntry) {
 	e := pitEntry.(*nameTreePitEntry)
+	priority := pitExpiryPriority(e.expirationTime)
 	if e.pqItem == nil {
-		e.pqItem = p.pitExpiryQueue.Push(e, e.expirationTime.UnixNano())
+		e.pqItem = p.pitExpiryQueue.Push(e, priority)
 	} else {
-		p.pitExpiryQueue.Update(e.pqItem, e, e.expirationTime.UnixNano())
+		p.pitExpiryQueue.Update(e.pqItem, e, priority)
 	}
+}
+
+// pitExpiryPriority returns the expiration time as a priority of the expiry queue, in
+// nanoseconds since the Unix epoch. UnixNano is undefined (it wraps around, to a time
+// long past) beyond the year 2262, which an InterestLifetime of some 236 years or more
+// reaches: such an entry would be removed by the next Update although its records are
+// unexpired. It is queued with the latest representable time instead.
+func pitExpiryPriority(t time.Time) int64 {
+	if t.After(time.Unix(0, math.MaxInt64)) {
+		return math.MaxInt64
+	}
+	return t.UnixNano()
 }
 
 func (e *nameTreePitEntry) PitCs() PitCsTable {
